@@ -277,6 +277,10 @@ def scalar_forms(v, k=0):
         forms = [np.int64(v), np.int32(v), np.array(v, dtype=np.int64), int(v)]
         if -2 ** 15 <= int(v) < 2 ** 15:
             forms.append(np.int16(v))
+        if -2 ** 7 <= int(v) < 2 ** 7:
+            forms.append(np.int8(v))
+        if 0 <= int(v) < 2 ** 8:
+            forms.append(np.uint8(v))
         return forms[k % len(forms)]
     forms = [np.float64(v), np.array(float(v)), float(v)]
     fv = float(v)
